@@ -736,13 +736,19 @@ func utlsMacSHA384(key []byte) hash.Hash {
 
 var utlsSupportedCipherSuites []*cipherSuite
 
-func init() {
-	utlsSupportedCipherSuites = append(cipherSuites, []*cipherSuite{
+// utlsDefaultCipherSuites returns the standard library suites followed by the
+// pre-standard ChaCha20-Poly1305 code points that uTLS supports by default.
+func utlsDefaultCipherSuites() []*cipherSuite {
+	return append(cipherSuites, []*cipherSuite{
 		{OLD_TLS_ECDHE_RSA_WITH_CHACHA20_POLY1305_SHA256, 32, 0, 12, ecdheRSAKA,
 			suiteECDHE | suiteTLS12, nil, nil, aeadChaCha20Poly1305},
 		{OLD_TLS_ECDHE_ECDSA_WITH_CHACHA20_POLY1305_SHA256, 32, 0, 12, ecdheECDSAKA,
 			suiteECDHE | suiteECSign | suiteTLS12, nil, nil, aeadChaCha20Poly1305},
 	}...)
+}
+
+func init() {
+	utlsSupportedCipherSuites = utlsDefaultCipherSuites()
 }
 
 // EnableWeakCiphers allows utls connections to continue in some cases, when weak cipher was chosen.
@@ -751,7 +757,7 @@ func init() {
 // This option does not change the shape of parrots (i.e. same ciphers will be offered either way).
 // Must be called before establishing any connections.
 func EnableWeakCiphers() {
-	utlsSupportedCipherSuites = append(cipherSuites, []*cipherSuite{
+	utlsSupportedCipherSuites = append(utlsDefaultCipherSuites(), []*cipherSuite{
 		{DISABLED_TLS_RSA_WITH_AES_256_CBC_SHA256, 32, 32, 16, rsaKA,
 			suiteTLS12, cipherAES, macSHA256, nil},
 
